@@ -827,9 +827,16 @@ class LabReplay:
         ev, out, inst, pp = ctx["ev"], ctx["out"], self.inst, self.pp
         prec = pp.config.precisions
         nr, nc = o.wells.shape
+        def numpy_flat(a):
+            import numpy
+            return numpy.asarray(a, dtype=float).reshape(-1)
+
         def cmp(label, got, exp, unit):
             p = prec.get(unit, prec["default"])
             got = list(got.flatten())
+            if len(got) != len(exp):
+                self.report("C10", label, dict(key, unit=unit), f"{out.call}: {n}.{label} has {len(got)} entries for {len(exp)} wells", ev, ctx["pre_key"])
+                return False
             for i, (g, e) in enumerate(zip(got, exp)):
                 if abs(g - e) > 0.5 * 10 ** (-p) * 1.0001 + 1e-6 * abs(e) + 1e-9:
                     self.report("C10", label, dict(key, unit=unit), f"{out.call}: {n}.{label} well {i + 1} = {g!r}, contents give {e!r}", ev, ctx["pre_key"])
@@ -866,6 +873,32 @@ class LabReplay:
         got = {inst.model_name(s) for s in o.get_substances()}
         if not (present <= got <= keys):
             self.report("C10", "get_substances", key, f"{out.call}: {n}.get_substances() = {sorted(map(str, got))}, contents hold {sorted(present)}", ev, ctx["pre_key"])
+            return
+        # the same observers on slices of the plate: first row, last column, last well, a list of two wells
+        sels = [("row1", 1, [j for j in range(nc)]), ("lastcol", (slice(None), nc), [i * nc + nc - 1 for i in range(nr)]),
+                ("lastwell", (nr, nc), [nr * nc - 1]), ("list", [(1, 1), (nr, nc)], [0, nr * nc - 1])]
+        for label, sel, idx in sels:
+            k2 = dict(key, slice=label)
+            try:
+                sl = o[sel]
+                exp = [sum(x * float(VOLPER[s]) for s, x in mcs[j].items()) * vs / 1e-6 for j in idx]
+                if not cmp(f"[{label}].get_volumes()", numpy_flat(sl.get_volumes(unit="uL")), exp, "uL"):
+                    return
+                exp = [mcs[j].get("W", 0.0) * float(VOLPER["W"]) * vs / 1e-3 for j in idx]
+                if not cmp(f"[{label}].get_volumes(W)", numpy_flat(sl.get_volumes(inst.subs["W"], unit="mL")), exp, "mL"):
+                    return
+                exp = [(mcs[j].get("N", 0.0) + mcs[j].get("D", 0.0)) * ms / 1e-6 for j in idx]
+                if not cmp(f"[{label}].get_moles([N,D])", numpy_flat(sl.get_moles([inst.subs["N"], inst.subs["D"]], unit="umol")), exp, "umol"):
+                    return
+                pres = {s for j in idx for s, x in mcs[j].items() if abs(x) > 1e-9}
+                ks = {s for j in idx for s in mcs[j]}
+                got = {inst.model_name(s) for s in sl.get_substances()}
+                if not (pres <= got <= ks):
+                    self.report("C10", "slice_get_substances", k2, f"{out.call}: {n}[{label}].get_substances() = {sorted(map(str, got))}, the wells hold {sorted(pres)}", ev, ctx["pre_key"])
+                    return
+            except Exception as ex:
+                self.report("C10", "slice_observer_raises", dict(k2, exc=type(ex).__name__), f"{out.call}: observers of {n}[{label}] raised {type(ex).__name__}: {ex}", ev, ctx["pre_key"])
+                return
 
     def near_not_asserted(self, ev):
         """targets 5 ppm from the current concentration are judged only where the library's rounding of a stated
